@@ -275,20 +275,74 @@ def restore():
     subprocess.run(["git", "-C", str(REPO), "checkout", "--", "."], check=True)
 
 
-def run_check(pid):
+def run_check(pid, env=None):
+    import os
+
     t = time.time()
-    p = subprocess.run([str(VERIF / "check"), pid, "--tier", "quick"], capture_output=True, text=True, cwd=VERIF)
+    e = dict(os.environ)
+    e.update(env or {})
+    p = subprocess.run([str(VERIF / "check"), pid, "--tier", "quick"], capture_output=True, text=True, cwd=VERIF, env=e)
     lines = [l for l in p.stdout.splitlines() if l.startswith("VIOLATION") or "INCONCLUSIVE" in l or "violation mechanism" in l]
     return p.returncode, lines, time.time() - t
 
 
+def run_isolated(mut):
+    """One mutant in its own scratch worktree (checks pointed at it through YAWVERIF_SRC)."""
+    import shutil
+
+    name, props, rel, old, new = mut
+    wt = Path(f"/tmp/mutiso-{name}-{int(time.time() * 1000) % 10**9}")
+    subprocess.run(["git", "-C", str(REPO), "worktree", "add", "-q", "--detach", str(wt), "HEAD"], check=True)
+    rows = []
+    try:
+        shutil.copy(REPO / "src/yaw/_version.py", wt / "src/yaw/_version.py")
+        path = wt / "src" / "yaw" / rel
+        src = path.read_text()
+        if src.count(old) != 1:
+            return [(name, "STALE", f"pattern found {src.count(old)}x", 0.0, "")]
+        path.write_text(src.replace(old, new))
+        env = dict(YAWVERIF_SRC=str(wt / "src"), YAWVERIF_OUT=str(wt / "_verif_out"))
+        for pid in props:
+            rc, lines, dt = run_check(pid, env)
+            verdict = {0: "MISSED", 1: "caught", 2: "inconclusive"}.get(rc, f"rc={rc}")
+            if rc == 1 and not any(l.startswith("VIOLATION") for l in lines):
+                verdict = "check-error"
+            mech = "; ".join(l.split("mechanism=")[1].split(" ")[0] for l in lines if "mechanism=" in l)[:160]
+            rows.append((name, pid, verdict, dt, mech))
+    finally:
+        subprocess.run(["git", "-C", str(REPO), "worktree", "remove", "--force", str(wt)])
+    return rows
+
+
 def main():
     ap = argparse.ArgumentParser()
+    ap.add_argument("--jobs", type=int, default=0, help="run mutants in parallel in isolated scratch worktrees (/repo untouched)")
     ap.add_argument("--only", default="")
     ap.add_argument("--name", default="")
     ap.add_argument("--tests", action="store_true", help="also run the repository's test-suite on each mutant")
     args = ap.parse_args()
     only = set(filter(None, args.only.split(",")))
+    if args.jobs:
+        from concurrent.futures import ThreadPoolExecutor
+
+        todo = []
+        for name, props, rel, old, new in MUTANTS:
+            if args.name and args.name not in name:
+                continue
+            props = [p for p in props if not only or p in only]
+            if props:
+                todo.append((name, props, rel, old, new))
+        summary = []
+        with ThreadPoolExecutor(args.jobs) as ex:
+            for rows in ex.map(run_isolated, todo):
+                for name, pid, verdict, dt, mech in rows:
+                    summary.append((name, pid, verdict))
+                    print(f"{name:40s} {pid} {verdict:12s} {dt:5.1f}s {mech}", flush=True)
+        missed = [s for s in summary if s[2] != "caught"]
+        print(f"\n{len(summary) - len(missed)}/{len(summary)} caught")
+        for m in missed:
+            print("NOT CAUGHT:", m)
+        return 1 if missed else 0
     dirty = subprocess.run(["git", "-C", str(REPO), "status", "--porcelain", "--untracked-files=no"],
                            capture_output=True, text=True).stdout.strip()
     if dirty:
